@@ -540,7 +540,7 @@ impl Check for C03 {
     }
 
     fn rule(&self) -> String {
-        "each seeded run builds a pool of 6-24 valid and defective messages over one (bits, ext, generators) with mixed aggregation factors and capacities, obtains every member's singleton verdict and mask in each mode (reference model), then lets the seeded scheduler of a simulated verifier node form 10-40 batches (sizes 1..1100 with emphasis on 255/256/257/511/512/513, members drawn with repetition, invalid members placed at chosen positions incl. beyond the chunk limit, random permutation, swarm-chosen mode) plus malformed shapes; non-trivial = at least one multi-member batch or malformed shape executed; distinct = distinct event-log hashes".into()
+        "each seeded run builds a pool of 6-24 valid and defective messages over one (bits, ext, generators) with mixed aggregation factors and capacities, obtains every member's singleton verdict and mask in each mode (reference model), then lets the seeded scheduler of a simulated verifier node form 10-40 batches (sizes 1..1100 with emphasis on 255/256/257/511/512/513, members drawn with repetition, invalid members placed at chosen positions incl. beyond the chunk limit, random permutation, swarm-chosen mode) plus malformed shapes and batches in which one member disagrees on bit length, extension degree or a generator - at any position, including alone at the start of a later chunk; non-trivial = at least one multi-member batch or malformed shape executed; distinct = distinct event-log hashes".into()
     }
 
     fn assumptions(&self) -> Vec<String> {
